@@ -72,8 +72,9 @@ void reb_simulation_update_tree_gravity_data(struct reb_simulation* const r);
   * @brief The wrap function calls reb_tree_add_particle_to_cell() to add the particle into one of the trees. If the tree_root doesn't exist, then it initializes the tree. 
   * @param r Rebound simulation to operate on
   * @param pt Index of a particle.
+  * @return 1 if the particle is now in the tree, 0 if the tree refused it (an error has been reported, the tree is unchanged).
   */
-void reb_tree_add_particle_to_tree(struct reb_simulation* const r, int pt);
+int reb_tree_add_particle_to_tree(struct reb_simulation* const r, int pt);
 
 /**
  * @brief Free up all space occupied by the tree structure.
